@@ -12,23 +12,15 @@ RULE = ("cases = (impl block from the C05 grammar) x lib x filter {none, include
         "of the Live impl), user impl tokens = input tokens; oracle = declarative C05 spec on the real output; "
         "non-trivial = distinct (kind, lib, filter kind, |S|, #eligible, outcome) classes")
 
-KNOWN_LONG = "long-signature-self"
+# regression inputs of two repaired defects (recurrence is a VIOLATION)
 LONG_ITEM = ("impl A {\n    pub fn new() -> Self { todo!() }\n    pub fn reset<T>(count: u8, (key, x): (u8, String), val: fn(u8) -> u8, gq: T) -> Option<Self> "
-             "where T: Into<String>, Vec<T>: Clone { todo!() }\n}")
-KNOWN_CLASS = "self-assoc-path"
-KNOWN_ITEM = "impl A {\n    const N: usize = 3;\n    pub fn new() -> Self { todo!() }\n    pub fn put(&mut self, v: [u8; Self::N]) {}\n    pub fn get(&self) -> u8 { 0 }\n}"
-
-
-def in_known_class(c, imp):
-    """decidable class of the known finding: an eligible (for families: of some member) method mentions `Self ::` in a parameter or return type"""
-    for f in imp["methods"]:
-        if L.vis_of(f["vis"]) == ("VInh",):
-            continue
-        for t in [t for _, t in f["params"]] + [f["ret"]]:
-            tk = L.toks_of(t)
-            if any(tk[i] == "Self" and tk[i + 1] == "::" for i in range(len(tk) - 1)):
-                return True
-    return False
+             "where T: Into<String>, Vec<T>: Clone { todo!() }\n    pub fn wide(&mut self, first_argument: std::collections::HashMap<String, Vec<u8>>, second_argument: Self, "
+             "third_argument: Option<Box<Self>>) -> Result<Vec<Self>, String> { todo!() }\n}")
+ASSOC_ITEM = ("impl A {\n    const N: usize = 3;\n    pub fn new(seed: [u8; Self::N]) -> Self { todo!() }\n    pub fn put(&mut self, v: [u8; Self::N]) {}\n"
+              "    pub fn get(&self) -> [u8; Self::N] { todo!() }\n    pub fn mixed(&mut self, a: Option<Self>, b: Vec<Self::Item>, c: Self::Item) -> Option<[u16; Self::N]> { None }\n"
+              "    pub fn stat(v: [u8; Self::N]) -> Self::Item { todo!() }\n    pub fn fin(self, w: [u8; Self::N]) -> Option<Self::Item> { None }\n}")
+ASSOC_GENERIC = ("impl<T: Send + 'static> G<T> {\n    pub fn new(t: T) -> Self { todo!() }\n    pub fn put(&mut self, v: [u8; Self::N], w: Vec<Self::Item>, o: Option<Self>) -> Self::Item { todo!() }\n"
+                 "    pub fn st(x: Self::Item) -> Option<Self> { None }\n}")
 
 
 def actor_cases(rng, tier):
@@ -141,6 +133,11 @@ def fixed_cases():
     pub fn other(actor: &Arc<Mutex<Self>>, s: u8) -> u8 { s }
     pub fn stat(k: u8) -> u8 { k }
 }"""
+    for it in (LONG_ITEM, ASSOC_ITEM, ASSOC_GENERIC):
+        rimp = L.read_impl(it)
+        for lib in L.LIBS:
+            cs.append({"kind": "actor", "cfg": {"lib": lib, "debut": lib == "tokio"}, "item": it, "imp": rimp, "tag": "regression"})
+        cs.append({"kind": "actor", "cfg": {"lib": "std", "filter": ("include", ["put"] if "put" in it else ["reset"])}, "item": it, "imp": rimp, "tag": "regression"})
     fimp = L.read_impl(fam)
     cs.append({"kind": "family", "cfg": {"lib": "std", "lock": "RwLock", "name": "MyActor", "members": [{"first": "User", "filter": ("include", ["get", "own"])},
                {"first": "SuperAdmin", "filter": ("exclude", ["get"])}, {"first": "Io2", "name": "Other"}]}, "item": fam, "imp": fimp, "tag": "fixed"})
@@ -209,7 +206,7 @@ def judge(rep, case, cls, text, printed, intern):
     if cls != "TOKENS":
         rec["real_output"] = text[:600]
         if model is None and cls == "DIAG":
-            if valid and not in_known_class(c, imp):
+            if valid:
                 rec["what"] = "a configuration inside the documented envelope is rejected (model and macro agree): no handle is generated"
                 return False, rec, True
             return True, None, None
@@ -314,48 +311,12 @@ def run(rep):
         if not ok and nviol < 12:
             nviol += 1
             rep.violation("%s_%d" % (case["tag"], i), rec, found=found)
-    # known finding: replayed on the real macro on every run
-    kimp = L.read_impl(KNOWN_ITEM)
-    (kcls, kf), = hook.run_batch([("actor", ["", KNOWN_ITEM])])
-    kmodel = inst.coq_values("C05_known", L.COQ_IMPORTS, [("k", "pj (gen %s %s)" % (L.coq_cfg({"lib": "std"}, kimp), L.clst([L.coq_method(f, intern) for f in kimp["methods"]])))], defs=L.COQ_DEFS)["k"]
-    rep.oblige(in_known_class({"lib": "std"}, kimp))
-    listed = [k for k in known_findings()["finding"] if k.get("property") == PID and k.get("class") == KNOWN_CLASS]
-    if kcls != "TOKENS" and listed:
-        rep.oblige(kmodel == "None")
-        rep.known_finding("%s: `pub fn put(&mut self, v: [u8; Self::N])` is rejected (%s: %s) instead of mirrored on the handle" % (KNOWN_CLASS, kcls, " ".join(kf[0].split())[:120]))
-    elif kcls != "TOKENS":
-        rep.oblige(False)
-        rep.violation("self_assoc_path", {"what": "valid method signature using `Self::N` is rejected and the class is not a listed known finding", "item": KNOWN_ITEM, "attr": "", "observed": kf[0][:400]}, found=True)
-    else:
-        rep.notes.append("known finding %s no longer reproduces (witness expands); remove it from known_findings.txt and from the model (DSelfPath)" % KNOWN_CLASS)
-    # known finding 2: a long signature hides `Self` from the textual search
-    limp = L.read_impl(LONG_ITEM)
-    (lcls, lf), = hook.run_batch([("actor", ["", LONG_ITEM])])
-    rep.oblige(L.is_long([f for f in limp["methods"] if f["name"] == "reset"][0]))
-    listed = [k for k in known_findings()["finding"] if k.get("property") == PID and k.get("class") == KNOWN_LONG]
-    strict_fails = ["outcome " + lcls]
-    if lcls == "TOKENS":
-        lex = ir.parse_expansion(lf[0])
-        strict_fails = L.oracle({"lib": "std"}, limp, L.real_projection(lex["models"][0]), strict=True) if lex["models"] else ["no generated model recognised"]
-        luser = L.canon_tokens(rs.flat(lex["user"][0]["all"])) if lex["user"] else []
-        if luser != limp["tokens"]:
-            strict_fails = None
-    if strict_fails is None:
-        rep.oblige(False)
-        rep.violation("long_signature_witness", {"what": "the re-emitted user impl differs from the input impl block", "item": LONG_ITEM, "attr": ""}, found=True)
-    elif strict_fails and listed:
-        rep.known_finding("%s: %s (witness `pub fn reset<T>(count: u8, (key, x): (u8, String), val: fn(u8) -> u8, gq: T) -> Option<Self> where ..`: "
-                          "`Self` on the handle now names the handle type)" % (KNOWN_LONG, "; ".join(strict_fails)[:200]))
-    elif strict_fails:
-        rep.oblige(False)
-        rep.violation("long_signature_self", {"what": "return/parameter type keeps `Self` on the handle: " + "; ".join(strict_fails), "item": LONG_ITEM, "attr": ""}, found=True)
-    else:
-        rep.notes.append("known finding %s no longer reproduces on its witness; remove it from known_findings.txt (and mi_long from the model)" % KNOWN_LONG)
     rep.assumptions += [
         "envelope of the grammar: methods with `self`, `&self`, `&mut self`, `mut self` or no receiver; in families additionally the documented `actor: &<shared model type>` "
         "convention (by-value `actor: <shared>` and the same convention under plain `actor` are modelled in Coq but not generated: the documentation does not describe them)",
         "excluded from generation: typed `self: T` receivers, non-doc attributes on methods (#[cfg], #[inline]; the macro drops them), parameters/methods named like generated "
         "identifiers (inter_*, C07/C19), duplicate method names (rustc rejects them; guard NoDup of the theorems), `Self` inside method-level generic bounds or where clauses",
+        "the actor self type is a plain path whose generic arguments sit on the last segment (turbofish model `A < T >` -> `A :: < T >`); `Self ::` in the RETURN type of a constructor is not looked at",
         "doc comments, generics text and where clauses are carried opaquely through the Coq model (interned); their preservation is checked on the real expansion by the differential tie",
         "preservation of parameter / return types is compared token-wise after `Self` -> actor type substitution; rustc-level meaning of the signature (type checking of client code) is not exercised here",
         "the classification of compliant return types of self-consuming methods (Option<_>, Result<_, String>, Result<_, &'static str>) is computed by the translator from the documented rule and proved/checked in C09",
